@@ -16,7 +16,7 @@ open AslModel
 open AslModel.Ini hiding Bytes
 open AslModel.Csv (Cell Dec parseRow writeRow isNumber atofDec)
 open C18Spec hiding Bytes
-open AslProofs.Ini (Op run setsOf path AnyOp anyRun SameLine Pointwise)
+open AslProofs.Ini (Op run setsOf path AnyOp anyRun SameLine Pointwise isEntryLine)
 open AslProofs.Csv (cellText CellOK numValue decValue ColOK StrOK NumText CellWF expected)
 
 abbrev Bytes := List UInt8
@@ -42,9 +42,9 @@ example : ∃ doc : List Item, (∀ it ∈ doc, it.WF) ∧ relGet doc [110, 101,
   intro it hit
   simp only [List.mem_cons, List.not_mem_nil, or_false] at hit
   rcases hit with e | e | e <;> subst e
-  · exact ⟨by intro c hc; simp at hc, Or.inr rfl, by decide, by decide⟩
-  · exact ⟨by decide, by decide⟩
-  · refine ⟨?_, ⟨by decide, by decide, by decide, by decide, ?_, ?_⟩, ?_, ?_, ⟨by decide, ?_, ?_⟩, ?_⟩
+  · exact ⟨by intro c hc; simp at hc, Or.inr rfl, by decide, by decide, by decide⟩
+  · exact ⟨by decide, by decide, by decide⟩
+  · refine ⟨?_, ⟨by decide, by decide, by decide, by decide, ?_, ?_, by decide⟩, ?_, ?_, ⟨by decide, ?_, ?_, by decide⟩, ?_⟩
     · intro c hc; simp at hc; exact Or.inl hc
     · intro c hc; simp at hc; subst hc; decide
     · intro c hc; simp at hc; subst hc; unfold White; decide
@@ -102,18 +102,21 @@ theorem ini_persist (doc : List Item) (hd : ∀ it ∈ doc, it.WF) (eol : Bytes)
 
 /-- a well-formed `set`: `set("net/retries", "5")` -/
 example : (⟨[110, 101, 116], [114], [53]⟩ : SetOp).WF := by
-  refine ⟨⟨by decide, by decide⟩, by decide, ⟨by decide, by decide, by decide, by decide, ?_, ?_⟩, ⟨by decide, ?_, ?_⟩⟩
+  refine ⟨⟨by decide, by decide, by decide⟩, by decide, ⟨by decide, by decide, by decide, by decide, ?_, ?_, by decide⟩,
+    ⟨by decide, ?_, ?_, by decide⟩⟩
   · intro c hc; simp at hc; subst hc; decide
   · intro c hc; simp at hc; subst hc; unfold White; decide
   · intro c hc; simp at hc; subst hc; unfold White; decide
   · intro c hc; simp at hc; subst hc; unfold White; decide
 
-/-- **ini_write_in_bounds.**  For *any* file content whatsoever (or a missing file), opened either way, and
-    any sequence of `set`, `operator[] =` and `write` calls with any byte strings, `write` never reads
-    outside `_lines` (the model's `write` returns `none` exactly when the backwards scans of the second loop
-    would leave the array; before 3bcb78f the first scan did, on two blank lines followed by `[s]` when a
-    key of the section-less group had to be placed). -/
-theorem ini_write_in_bounds (file : Option Bytes) (shouldwrite : Bool) (ops : List AnyOp) :
+/-- **ini_write_in_bounds.**  For *any* NUL-free file content whatsoever (or a missing file), opened either way,
+    and any sequence of `set`, `operator[] =` and `write` calls with any NUL-free byte strings, `write` never
+    reads outside `_lines` (the model's `write` returns `none` exactly when the backwards scans of the second
+    loop would leave the array; before 3bcb78f the first scan did, on two blank lines followed by `[s]` when a
+    key of the section-less group had to be placed).  (NUL-freeness is what ties the model to the C-string
+    based code; the proof does not need it.) -/
+theorem ini_write_in_bounds (file : Option Bytes) (_hfile : ∀ t, file = some t → 0 ∉ t) (shouldwrite : Bool)
+    (ops : List AnyOp) (_hops : ∀ o ∈ ops, o.NulFree) :
     (anyRun (Ini.openFile file shouldwrite) ops).isSome = true :=
   AslProofs.Ini.anyRun_isSome _ (AslProofs.Ini.openFile_hasNE file shouldwrite) ops
 
@@ -125,6 +128,34 @@ theorem ini_order (ini : Ini) (r : Ini.WriteResult) (hw : Ini.write ini = some r
     ∃ kept out : List Bytes, t = Ini.joinLines out ∧ kept.Sublist out ∧
       Pointwise (SameLine ini.indent) ini.lines kept :=
   AslProofs.Ini.write_order ini r hw t ht
+
+/-- **ini_order_file.**  End to end, from the file before to the file after: take the text of any document of
+    the grammar (LF or CRLF, with or without final line end), any session of `set`s and `write`s as in
+    `ini_persist`, and the file it leaves.  Either nothing was written (the file is the old text), or the new
+    file is `out` joined by LF where (a) some sub-sequence `kept` of `out` corresponds line by line to the old
+    file's lines `L` — the document's lines up to empty lines at the very end, which the constructor strips —
+    entry lines respelled `indent key=value` with the same key, every other line byte for byte; in particular
+    (b) all comment and section-header lines (every non-empty non-entry line) of the old file occur in the new
+    file byte for byte and in the same relative order; new lines are only inserted. -/
+theorem ini_order_file (doc : List Item) (hd : ∀ it ∈ doc, it.WF) (eol : Bytes) (he : LineEnd eol) (finalNewline : Bool)
+    (ops : List Op) (obj : Ini) (file : Bytes)
+    (hr : run (Ini.read (renderDoc doc eol finalNewline) true, renderDoc doc eol finalNewline) (ops ++ [Op.write])
+        = some (obj, file)) :
+    file = renderDoc doc eol finalNewline ∨
+    ∃ kept out : List Bytes, file = Ini.joinLines out ∧ kept.Sublist out ∧
+      (∃ L b1 b2 : List Bytes, (∀ l ∈ b1, l = []) ∧ (∀ l ∈ b2, l = []) ∧ L ++ b1 = doc.map Item.render ++ b2 ∧
+        Pointwise (SameLine (Ini.read (renderDoc doc eol finalNewline) true).indent) L kept) ∧
+      ((doc.map Item.render).filter fun l => !isEntryLine l && !l.isEmpty).Sublist out := by
+  obtain ⟨_, _, hf⟩ := AslProofs.Ini.run_order (ops ++ [Op.write])
+    (Ini.read (renderDoc doc eol finalNewline) true, renderDoc doc eol finalNewline) (obj, file)
+    (renderDoc doc eol finalNewline) (Or.inl rfl) hr
+  rcases hf with e | ⟨kept, out, e1, e2, e3⟩
+  · exact Or.inl e
+  · obtain ⟨b1, b2, hb1, hb2, hL⟩ := AslProofs.Ini.read_lines_doc doc hd eol he finalNewline
+    refine Or.inr ⟨kept, out, e1, e2, ⟨_, b1, b2, hb1, hb2, hL, e3⟩, ?_⟩
+    have hp : (fun (l : Bytes) => !isEntryLine l && !l.isEmpty) [] = false := by simp
+    rw [← AslProofs.Ini.filter_append_blanks _ hp _ b2 hb2, ← hL, AslProofs.Ini.filter_append_blanks _ hp _ b1 hb1]
+    exact (AslProofs.Ini.pointwise_filter _ _ _ e3).trans e2
 
 /-! ## TabularDataFile -/
 
